@@ -365,7 +365,16 @@ def main(mod, argv: list[str] | None = None) -> int:
                 continue
             n_replayed += 1
             try:
-                run_case(sub, rep["case"])
+                case = rep["case"]
+                if isinstance(case, dict) and set(case) == {"unit"} and sub.run_unit is not None:
+                    # a failing unit of an exhaustive sub-check: run the unit again
+                    ucol = Collector()
+                    sub.run_unit(case["unit"], ucol)
+                    if ucol.failures:
+                        sig, f = next(iter(ucol.failures.items()))
+                        raise Violation(sig, f["detail"])
+                else:
+                    run_case(sub, case)
             except Violation as v:
                 if v.signature in known_sigs:
                     known_hit[v.signature] = {"case": rep["case"], "detail": v.detail}
